@@ -5,7 +5,7 @@ import facts
 import tcpcl_scen as sc
 import tcpcl_monitors as tm
 
-MODULE = 'DtnVerif.Props.C18'
+MODULE = ['DtnVerif.Props.C18', 'DtnVerif.Props.C18Udpcl']
 
 
 def udpcl_polling_cases(chk, sigtable):
@@ -257,6 +257,8 @@ def run(chk):
     for (sig, what, rep) in c13.rx_queue_cases(chk, chk.rng, chk.tier, 'C18'):
         chk.violation(sig, what, rep)
     for (sig, what, rep) in c13.tx_queue_cases(chk, chk.rng, chk.tier, 'C18'):
+        chk.violation(sig, what, rep)
+    for (sig, what, rep) in c13.dbus_view_cases(chk, chk.rng, chk.tier, 'C18'):
         chk.violation(sig, what, rep)
     chk.assumptions += ['conformance is to a transcription of dbus-python marshalling rules (the library is absent from the sandbox)',
                         'bp.cla adaptor upcalls are covered by the correspondence of the UDPCL/BTP-U checks (C13, C20)']
